@@ -31,7 +31,11 @@ func c14Mut(r *rng, id string) {
 	if src == "removedmid" || src == "keptlast" {
 		ring = [][]byte{k2, k4} // k2 sits in the middle of [k1 k2 k4]
 	}
-	rcv, err := newCnode(ccfg{label: label, key: k1, keys: ring, verifyIn: true, verifyOut: true, name: "R", proto: proto, skipIn: skip})
+	// a quarter of the receivers were created with the first key as SecretKey next to a still empty keyring of the
+	// application, which installs the other keys (and later retires some) through that handle
+	viaApp := r.chance(1, 4)
+	rcv, err := newCnode(ccfg{label: label, key: k1, keys: ring, verifyIn: true, verifyOut: true, name: "R", proto: proto, skipIn: skip,
+		secretKey: viaApp, emptyRing: viaApp})
 	if err != nil {
 		return
 	}
